@@ -33,6 +33,8 @@ type Model struct {
 	Pkgs        []*packages.Package // module packages, sorted by path
 	ByPath      map[string]*packages.Package
 	Prog        *ssa.Program
+	OverlaySrc  map[string][]byte
+	Normalised  int // > 0: this is the normalised view, with that many accessor calls inlined
 	SSAPkg      map[string]*ssa.Package
 	Funcs       []*ssa.Function // every module function with a body (incl. literals, generic instances, wrappers), sorted
 	Src         []*ssa.Function // Funcs without synthetic wrappers/thunks (one per source function, literal or instance)
@@ -138,6 +140,7 @@ func Load(o LoadOpts) (*Model, error) {
 	for name := range o.Overlay {
 		m.Overlays = append(m.Overlays, name)
 	}
+	m.OverlaySrc = o.Overlay
 	sort.Strings(m.Overlays)
 	for _, p := range pkgs {
 		if inModulePath(p.PkgPath) {
